@@ -68,7 +68,7 @@ Proof.
 Qed.
 
 Section NamesInv.
-  Variables (g : list node) (inv : N) (mc fixed : bool).
+  Variables (g : list node) (inv : N) (mc : bool) (fixed : config).
   Variable init : list task.
   Notation n0 := (List.length init).
 
